@@ -79,8 +79,8 @@ def py_rect_maxvol(
     row_norm_sqr = np.array(
         [chosen[i] * np.linalg.norm(C[i], 2) ** 2 for i in range(top_k_index)]
     )
-    # find maximum value in row_norm_sqr
-    i = np.argmax(row_norm_sqr)
+    # find maximum value in row_norm_sqr (among rows not chosen yet)
+    i = np.where(chosen > 0, row_norm_sqr, -np.inf).argmax()
     K = r
     # set cgeru or zgeru for complex numbers and dger or sger
     # for float numbers
